@@ -2,6 +2,7 @@ package lens
 
 import (
 	"context"
+	"fmt"
 
 	"github.com/notaryproject/notation-core-go/signature"
 	"github.com/notaryproject/notation-go"
@@ -73,6 +74,8 @@ type vcfg struct {
 	legacy          bool // hand the validator over through the deprecated client interface
 	mgr             plugin.Manager
 	scopes          []string
+	// ctor 1: build through the deprecated verifier.NewWithOptions(ociPolicy, store, manager, options)
+	ctor int64
 }
 
 func buildVerifier(c vcfg) (fullVerifier, error) {
@@ -103,6 +106,21 @@ func buildVerifier(c vcfg) (fullVerifier, error) {
 		opts.RevocationTimestampingValidator = c.tsValidator
 	} else if c.validator != nil {
 		opts.RevocationTimestampingValidator = &world.ScriptedValidator{}
+	}
+	if c.ctor == 1 {
+		// the deprecated constructor takes the OCI document and the plugin manager as arguments (and overrides
+		// those two option fields with them); everything else travels in the options as before
+		doc, mgr := opts.OCITrustPolicy, opts.PluginManager
+		opts.OCITrustPolicy, opts.PluginManager = nil, nil
+		v, err := verifier.NewWithOptions(doc, c.store, mgr, opts)
+		if err != nil {
+			return nil, err
+		}
+		fv, ok := v.(fullVerifier)
+		if !ok {
+			return nil, fmt.Errorf("verifier.NewWithOptions returned %T, which does not verify blobs", v)
+		}
+		return fv, nil
 	}
 	return verifier.NewVerifierWithOptions(c.store, opts)
 }
